@@ -9,6 +9,8 @@ import Reamber.Lemmas.SMTimes
 import Reamber.Lemmas.SMText
 import Reamber.Lemmas.SMPair
 import Reamber.Lemmas.SMTempo
+import Reamber.Lemmas.SMGrid
+import Reamber.Lemmas.SMMeasures
 import Reamber.Props.C10
 import Reamber.Generated.SMTables
 
@@ -163,7 +165,7 @@ theorem queryOk_of_nonneg (cs : List BcSnap) (h0 : firstAtZero cs = true) (q : S
 /-- **`sm_times` — read times = integration of the file's beat positions over its `#BPMS` segments.**
 For every note data text, every initial offset `t0 = −1000·#OFFSET`, every tempo-change list `cs` (as parsed from
 `#BPMS`) that is well-formed, ascending, starts at beat 0, is grid-compatible and keeps the 4-beat metronome
-(C10's hypotheses; a finite decimal on the 1/48-beat grid is a multiple of 1/16, hence grid-compatible — that step is not proved here, the check evaluates the domain per case), and every
+(C10's hypotheses; a finite decimal on the 1/48-beat grid is a multiple of 1/16, hence grid-compatible: `tempo_grid48_gridCompatible`), and every
 sorting permutation `np.argsort` may return for the set of distinct positions:
 if `_read_notes` returns, then its notes are exactly the positions stored by the parsing loop, each mapped
 through `timeAt t0 cs` (hold length = `timeAt` tail − `timeAt` head). -/
@@ -288,6 +290,27 @@ theorem tempo_list_keeps_times (σf : List Snap → List Nat) (data : Str) (t0 :
 
 example : Dom extendThreshold [⟨120, 4, ⟨0, 0, some 4⟩⟩, ⟨60, 4, ⟨1, 1/2, some 4⟩⟩, ⟨200, 4, ⟨1, 25/16, some 4⟩⟩] := by
   unfold Dom; decide +kernel
+
+/-- **Tempo changes on the 1/48-beat grid satisfy C10's `gridCompatible`**: a finite decimal `a/10ⁿ` that is a
+multiple of 1/48 is a multiple of 1/16 (`10ⁿ ∣ 48a → 10ⁿ ∣ 16a`), and a `#BPMS` list whose beats are multiples of 1/16
+(4 beats per measure) is grid-compatible for `Snapper()`'s grid — so this hypothesis of `sm_times` holds on the
+property's whole domain. -/
+theorem tempo_grid48_gridCompatible :
+    (∀ a n : Nat, 10 ^ n ∣ 48 * a → 10 ^ n ∣ 16 * a) ∧
+    (∀ cs : List BcSnap, (∀ c ∈ cs, c.met = 4) → (∀ c ∈ cs, ∃ k : Int, c.snap.beat = (k : Rat) / 16) →
+      gridCompatible (grid defaultMaxDiv) cs = true) :=
+  ⟨decimal_48_is_16, sixteenth_gridCompatible⟩
+
+/-- **`measuresOf = scanRows` at text level**, on note data of the shape the writer emits (rows joined by line
+breaks, measures by "\n,\n", rows over the note symbols): the reader's `split(",")`/`split("\n")`+filter and the
+specification's character scanner both return exactly the written measures and rows. -/
+theorem measuresOf_eq_scanRows (ms : List (List Str)) (hne : ms ≠ []) (hr : ∀ m ∈ ms, ∀ p ∈ m, ReaderRow p)
+    (hc : ∀ m ∈ ms, ∀ p ∈ m, CleanRow p) :
+    measuresOf (renderRows ms) = ms ∧ scanRows (renderRows ms) = ms :=
+  ⟨measuresOf_renderRows ms hne hr, scanRows_renderRows ms hne hc⟩
+
+example : ReaderRow ['1','0','M','3'] ∧ CleanRow ['1','0','M','3'] := by
+  refine ⟨⟨by decide, by decide⟩, by decide, by decide, by decide⟩
 
 /-! ### charts and their headers (text level) -/
 
